@@ -17,11 +17,12 @@ from fractions import Fraction
 
 import numpy as np
 
-VERIF = '/verif'
+# the tree this file lives in (a snapshot made by `vp run` works on its own copy) and the repository under check
+VERIF = os.path.dirname(os.path.dirname(os.path.abspath(__file__)))
 COQ = os.path.join(VERIF, 'coq')
 GEN = os.path.join(COQ, 'gen')
 BUILD = os.path.join(VERIF, 'build')
-REPO = '/repo'
+REPO = os.environ.get('VERIF_REPO') or '/repo'
 QFLAGS = ['-Q', 'Base', 'ML', '-Q', 'Model', 'ML', '-Q', 'Proofs', 'ML', '-Q', 'Properties', 'ML',
           '-Q', 'gen', 'MLgen', '-w', '-notation-overridden,-deprecated-syntactic-definition,-deprecated-hint-without-locality,-abstract-large-number']
 
